@@ -611,6 +611,29 @@ fn mode_c16(s: &mut Session, re: &Regex, p: &str, t: &str) {
                 if c.get(0).is_none() {
                     fails.push("get(0) is None".to_string());
                 }
+                // the iterator after k steps has len - k items left, however they are counted
+                for k in 0..=c.len().min(3) {
+                    let mut it = c.iter();
+                    for _ in 0..k {
+                        it.next();
+                    }
+                    let n1 = it.count();
+                    let n2 = c.iter().skip(k).count();
+                    let mut it3 = c.iter();
+                    for _ in 0..k {
+                        it3.next();
+                    }
+                    let mut n3 = 0;
+                    while it3.next().is_some() {
+                        n3 += 1;
+                    }
+                    if n1 != c.len() - k || n2 != c.len() - k || n3 != c.len() - k {
+                        fails.push(format!("iter() after {} steps: count {} skip-count {} walked {} expected {}", k, n1, n2, n3, c.len() - k));
+                    }
+                }
+                if c.iter().last().map(|m| m.map(|m| (m.start(), m.end()))) != gt.last().cloned() {
+                    fails.push("iter().last() differs from get(len-1)".to_string());
+                }
                 for k in 0..3 {
                     if c.get(len + k).is_some() {
                         fails.push(format!("get({}) is Some", len + k));
